@@ -277,7 +277,13 @@ class JsonSchemaParser:
                 constraints.pop('max_length', None)
                 constraints.pop('min_length', None)
                 constraints.update(length=0)
-            return Rule.annotate(dict, key_type, Any, constraints=constraints)
+            value_type = Any
+            if isinstance(additional_properties, dict):
+                value_type = self.parse_type(additional_properties)
+            elif additional_properties is False:
+                # no property is declared and no other is allowed
+                value_type = Rule.annotate(None, constraints={'enum': []})
+            return Rule.annotate(dict, key_type, value_type, constraints=constraints)
 
         attrs = {}
         annotations = {}
